@@ -25,6 +25,10 @@ func init() {
 		RuleG1, RuleG2, RuleG3, RuleG4, RuleG5, RuleG6, RuleG7, RuleW2(30), RuleW3)
 	Props["C20"] = spec("static decision of the synchronisation clauses of the executor only (DESIGN 4 C20): Add before each spawn, one spawn per iteration, work called exactly once with per-iteration range cells, Done after work, Wait post-dominating entry (G7), no parent store to captured cells (G5), callers size result channels by the same value they pass as the worker limit (G3). The range arithmetic (disjoint cover of [0,n), at most min(n,m) invocations) is NOT decided.",
 		RuleG7, RuleG5, RuleG3)
+	Props["C03"] = spec("static decision of the structural determinism/conformance clauses (DESIGN 4 C03): Fiat-Shamir labels and absorb order equal the specification on both sides (F1,F2), openings absorbed with their own index (F4), canonical encodings absorbed and transcript chaining (F7), serialisation layout D|L|R|a with canonical encoders (D5), results merged in completion order only by commutative-associative combiners, every worker result merged exactly once (G4,G2,G3), no call writes state a later call reads (W2,W3). Byte-for-byte equality with an independent implementation is not decided.",
+		RuleF1F2(), RuleF4(), RuleF7, RuleD5, RuleG4, RuleG2, RuleG3, RuleW2(30), RuleW3)
+	Props["C09"] = spec("static decision of the structural clauses of the variable-base MSM (DESIGN 4 C09): points and scalars stay paired through every wrapper, split and chunk (M1); Montgomery flag and task count reach the inner routine (M2); every selectable window width has an implementation with matching constants and array sizes (M3); every chunk is produced exactly once and consumed exactly once, chunk j through channel j (M4); bucket/table indexes v-1 are guarded (M5); length mismatch is an error before any slicing (LG); the sizing loop terminates (T1); goroutines write only their own slots, are joined, channels fit (G1-G5); inputs are not written (W1). The bucket arithmetic and digit recoding are not decided.",
+		RuleM1, RuleM1b, RuleM2, RuleM3, RuleM4, RuleM5, RuleT1, RuleLG([][4]string{{"bandersnatch", "MultiExp", "points", "scalars"}, {"ipa", "commit", "groupElements", "polynomial"}}), RuleG1, RuleG2, RuleG3, RuleG4, RuleG5, RuleW1(nameHas("bandersnatch.msm", "bandersnatch.MultiExp", "bandersnatch.partitionScalars", "banderwagon.Element).MultiExp", "ipa.MultiScalar", "ipa.commit", "batchProjToAffine"), 30))
 	Props["C15"] = spec("static decision of the structural clauses of scalar-field arithmetic (DESIGN 4 C15): every modulus-derived constant equals the value computed from the decimal modulus (K1), limb k meets limb k in every carry chain, cascade and Montgomery round (K2), operands are not written (W1). Numeric correctness of the algorithms is not decided.",
 		RuleK1K2, RuleW1(nameHas("bandersnatch/fr."), 40))
 	Props["C06"] = spec("static decision of the decoder's structural clauses (DESIGN 4 C06): no untrusted entry point reaches an unchecked or reducing decoder (D1, D3); on the untrusted path success is dominated by exact length, canonical x, on-curve, subgroup test on the same x, and y-bytes equality (D2); the subgroup decision accepts exactly Legendre=+1 of 1-a*x^2 (D4); errors are propagated (D7); decoders do not write their buffer (W1). Square-root and Legendre arithmetic not decided.",
